@@ -128,56 +128,57 @@ theorem update_length_ge (P : Picker ρ α) (r : ρ) {s : Sketch α} (hi : Inv s
 def merged (s o : Sketch α) : Sketch α :=
   { s with levels := mergeLevels s.levels o.levels, numRetained := s.numRetained + o.numRetained, n := s.n + o.n }
 
-theorem merge_skipped (P : Picker ρ α) (r : ρ) (s o : Sketch α) (h : o.numRetained = 0) : merge P r s o = (s, r) := by
+theorem merge_skipped (c : Cfg) (P : Picker ρ α) (r : ρ) (s o : Sketch α) (h : mergeSkips c o = true) :
+    merge c P r s o = (s, r) := by
   simp [merge, h]
-theorem merge_refused (P : Picker ρ α) (r : ρ) (s o : Sketch α) (h : o.dim ≠ s.dim) : merge P r s o = (s, r) := by
+theorem merge_refused (c : Cfg) (P : Picker ρ α) (r : ρ) (s o : Sketch α) (h : o.dim ≠ s.dim) : merge c P r s o = (s, r) := by
   simp [merge, h]
-theorem merge_accepted (P : Picker ρ α) (r : ρ) (s o : Sketch α) (h0 : o.numRetained ≠ 0) (hd : o.dim = s.dim) :
-    merge P r s o = compactLoop P r (merged s o) := by
+theorem merge_accepted (c : Cfg) (P : Picker ρ α) (r : ρ) (s o : Sketch α) (h0 : mergeSkips c o = false) (hd : o.dim = s.dim) :
+    merge c P r s o = compactLoop P r (merged s o) := by
   simp [merge, h0, hd, merged]
 
 theorem merged_inv {s o : Sketch α} (hs : Inv s) (ho : Inv o) : Inv (merged s o) :=
   ⟨by simp only [merged, sumLen_mergeLevels]; rw [hs.cnt, ho.cnt], mergeLevels_ne _ _ hs.ne⟩
 
-theorem merge_rinv (P : Picker ρ α) (r : ρ) {s o : Sketch α} (hs : RInv s) (ho : RInv o) : RInv (merge P r s o).1 := by
-  by_cases h0 : o.numRetained = 0
-  · rw [merge_skipped P r s o h0]; exact hs
+theorem merge_rinv (c : Cfg) (P : Picker ρ α) (r : ρ) {s o : Sketch α} (hs : RInv s) (ho : RInv o) : RInv (merge c P r s o).1 := by
+  by_cases h0 : mergeSkips c o = true
+  · rw [merge_skipped c P r s o h0]; exact hs
   · by_cases hd : o.dim = s.dim
-    · rw [merge_accepted P r s o h0 hd]
+    · rw [merge_accepted c P r s o (by simpa using h0) hd]
       apply compactLoop_rinv P r (merged_inv hs.inv ho.inv) hs.kpos
       simp only [merged]; have := hs.nge; have := ho.nge; omega
-    · rw [merge_refused P r s o hd]; exact hs
+    · rw [merge_refused c P r s o hd]; exact hs
 
-theorem merge_dim (P : Picker ρ α) (r : ρ) (s o : Sketch α) : (merge P r s o).1.dim = s.dim := by
-  by_cases h0 : o.numRetained = 0
-  · rw [merge_skipped P r s o h0]
+theorem merge_dim (c : Cfg) (P : Picker ρ α) (r : ρ) (s o : Sketch α) : (merge c P r s o).1.dim = s.dim := by
+  by_cases h0 : mergeSkips c o = true
+  · rw [merge_skipped c P r s o h0]
   · by_cases hd : o.dim = s.dim
-    · rw [merge_accepted P r s o h0 hd, compactLoop_dim]; rfl
-    · rw [merge_refused P r s o hd]
+    · rw [merge_accepted c P r s o (by simpa using h0) hd, compactLoop_dim]; rfl
+    · rw [merge_refused c P r s o hd]
 
-theorem merge_length_ge (P : Picker ρ α) (r : ρ) (s o : Sketch α) :
-    s.levels.length ≤ (merge P r s o).1.levels.length := by
-  by_cases h0 : o.numRetained = 0
-  · rw [merge_skipped P r s o h0]; exact Nat.le_refl _
+theorem merge_length_ge (c : Cfg) (P : Picker ρ α) (r : ρ) (s o : Sketch α) :
+    s.levels.length ≤ (merge c P r s o).1.levels.length := by
+  by_cases h0 : mergeSkips c o = true
+  · rw [merge_skipped c P r s o h0]; exact Nat.le_refl _
   · by_cases hd : o.dim = s.dim
-    · rw [merge_accepted P r s o h0 hd]
+    · rw [merge_accepted c P r s o (by simpa using h0) hd]
       exact Nat.le_trans (length_mergeLevels_ge s.levels o.levels) (compactLoop_length_ge P r (merged s o))
-    · rw [merge_refused P r s o hd]; exact Nat.le_refl _
+    · rw [merge_refused c P r s o hd]; exact Nat.le_refl _
 
 /-! ### whole histories -/
 
-theorem run_dim (P : Picker ρ α) (hist : Hist α) (r : ρ) : (run P hist r).1.dim = hist.dim := by
+theorem run_dim (c : Cfg) (P : Picker ρ α) (hist : Hist α) (r : ρ) : (run c P hist r).1.dim = hist.dim := by
   induction hist generalizing r with
   | new k d => rfl
   | upd h p ih => simp only [run, Hist.dim]; rw [update_dim]; exact ih r
   | merge h o ih _ => simp only [run, Hist.dim]; rw [merge_dim]; exact ih r
 
-theorem run_rinv (P : Picker ρ α) (minK : Nat) (hm : 1 ≤ minK) (hist : Hist α) (hv : hist.valid minK) (r : ρ) :
-    RInv (run P hist r).1 := by
+theorem run_rinv (c : Cfg) (P : Picker ρ α) (minK : Nat) (hm : 1 ≤ minK) (hist : Hist α) (hv : hist.valid minK) (r : ρ) :
+    RInv (run c P hist r).1 := by
   induction hist generalizing r with
   | new k d => exact init_rinv k d (Nat.le_trans hm hv)
   | upd h p ih => simp only [run]; exact update_rinv P _ (ih hv r) p
-  | merge h o ih1 ih2 => simp only [run]; exact merge_rinv P _ (ih1 hv.1 r) (ih2 hv.2 _)
+  | merge h o ih1 ih2 => simp only [run]; exact merge_rinv c P _ (ih1 hv.1 r) (ih2 hv.2 _)
 
 /-! ### iterator -/
 
